@@ -566,6 +566,28 @@ def oracle_conv(ctx, budget):
                 if r0[0] != 'ok' or rf[0] != 'ok' or not np.array_equal(np.asarray(rf[1]), o0 * o0 - 7 * o0 + 3):
                     ctx.fail('pad_edges:not-a-copy', f'pad_edges(N={n}, pad={p}, mode={mode!r}) of f(y) is not f(pad_edges(y))', case)
                     found += 1
+    # C18_extrapolate_affine_equivariant on the implementation (float fit: relative tolerance on the scale of the data)
+    for n in range(2, 9 if budget == 1 else 17):
+        for p in sorted({1, 2, n, 2 * n + 1}):
+            for ew in [None, 1, 2, 3, n, n + 5, (1, 3), (4, 2)]:
+                y0 = np.array([mrng.randint(-20, 20) for _ in range(n)], dtype=float)
+                a, b = mrng.choice([-3, -1, 0, 2, 5]), mrng.randint(-9, 9)
+                r0 = call(utils.pad_edges, y0, p, mode='extrapolate', extrapolate_window=ew)
+                ra = call(utils.pad_edges, a * y0 + b, p, mode='extrapolate', extrapolate_window=ew)
+                ctx.case(('o-pad-aff', n, p, str(ew)), nontrivial=True, kind='oracle:pad:affine')
+                case = {'kind': 'pad', 'data': (a * y0 + b).tolist(), 'pad_length': p, 'mode': 'extrapolate',
+                        'extrapolate_window': list(ew) if isinstance(ew, tuple) else ew, 'y': y0.tolist(), 'a': a, 'b': b}
+                if r0[0] == 'err' and ra[0] == 'err' and r0[1] == ra[1]:
+                    continue
+                if r0[0] != 'ok' or ra[0] != 'ok' or np.shape(ra[1]) != np.shape(r0[1]):
+                    ctx.fail('pad_edges:affine-status', f'pad_edges(N={n}, pad={p}, extrapolate_window={ew}) of {a}*y+{b}: {ra[0]} vs {r0[0]} for y', case)
+                    found += 1
+                    continue
+                exp = a * np.asarray(r0[1]) + b
+                tol = 1e-8 * max(1.0, float(np.max(np.abs(exp))), float(np.max(np.abs(r0[1]))) * abs(a))
+                if not np.all(np.abs(np.asarray(ra[1]) - exp) <= tol):
+                    ctx.fail('pad_edges:not-affine-equivariant', f'pad_edges(N={n}, pad={p}, extrapolate_window={ew}) of {a}*y+{b} is not {a}*pad_edges(y)+{b}', case)
+                    found += 1
     # C18_convolve_index_modes_linear on the implementation: exact integer data, enumerated sizes, the four
     # index-function modes; a private generator so that the streams above and below are unchanged
     lrng = _random.Random(18180)
